@@ -90,9 +90,33 @@ def ext_filename(case):
     return case["stem"] + case["ext"]
 
 
+_pruned = []
+
+
+def prune():
+    """once per process: forget bytecode caches of older trees (keep 3) and run directories that a killed run left behind"""
+    import time
+
+    if _pruned:
+        return
+    _pruned.append(1)
+    try:
+        cur = os.path.basename(pyc_prefix())
+        olds = sorted((d for d in os.listdir(BASE) if d.startswith("pyc-") and d != cur), key=lambda d: os.path.getmtime(os.path.join(BASE, d)))
+        for d in olds[:-3]:
+            shutil.rmtree(os.path.join(BASE, d), ignore_errors=True)
+        for d in os.listdir(BASE):
+            p = os.path.join(BASE, d)
+            if d.startswith("r") and time.time() - os.path.getmtime(p) > 6 * 3600:
+                shutil.rmtree(p, ignore_errors=True)
+    except OSError:
+        pass
+
+
 def run_batch(cases):
     """-> per case: (rendered, result) where result is {"phases": [...]} for import cases and the worker's dict for ext cases"""
     os.makedirs(BASE, exist_ok=True)
+    prune()
     rundir = tempfile.mkdtemp(prefix="r", dir=BASE)
     try:
         jobs1, jobs2, rendered = [], [], []
@@ -399,73 +423,86 @@ def without_mod(case, mi):
     return c if c["mods"] else None
 
 
+def candidates(best):
+    cands = []
+    items = best["main"]["items"]
+    for i in reversed(range(len(items))):
+        c = copy.deepcopy(best)
+        del c["main"]["items"][i]
+        cands.append(c)
+        if items[i]["t"] == "require" and len(items[i]["entries"]) > 1:
+            for j in range(len(items[i]["entries"])):
+                c = copy.deepcopy(best)
+                del c["main"]["items"][i]["entries"][j]
+                cands.append(c)
+    if best.get("ext_probes"):
+        c = copy.deepcopy(best)
+        c["ext_probes"] = []
+        cands.append(c)
+    for mi in reversed(range(len(best["mods"]))):
+        c = without_mod(best, mi)
+        if c is not None:
+            cands.append(c)
+    for mi, m in enumerate(best["mods"]):
+        for field in ("reqs", "readers"):
+            if m[field]:
+                c = copy.deepcopy(best)
+                c["mods"][mi][field] = []
+                cands.append(c)
+        if m.get("export"):
+            c = copy.deepcopy(best)
+            c["mods"][mi]["export"] = None
+            cands.append(c)
+        for k in range(len(m["macros"])):
+            c = copy.deepcopy(best)
+            del c["mods"][mi]["macros"][k]
+            cands.append(c)
+    if best["drop"] != "all":
+        c = copy.deepcopy(best)
+        c["drop"] = "all"
+        cands.append(c)
+    if best.get("init_py"):
+        c = copy.deepcopy(best)
+        c["init_py"] = False
+        cands.append(c)
+    return [c for c in cands if G.invalid(c) is None]
+
+
 def shrink(case, same, budget):
-    """Greedy deletion on the structure of an import case; a candidate that is no longer a valid module fails differently and is rejected."""
+    """Greedy deletion on the structure of an import case. Only valid cases (G.invalid) are tried; candidates are executed several per
+    child interpreter; a step is accepted when the candidate fails in the same bucket as the original."""
+    import time
+
     if case["kind"] != "import":
+        small = dict(case, stem="prog", dirname="d", hyval=1, pyval=2)
+        return small if small != case and same(small) else case
+    first = check_case(case)
+    if first is None:
         return case
-    calls = [0]
-    limit = min(budget, 40)
-
-    def ok(c):
-        if calls[0] >= limit:
-            return False
-        if G.invalid(c) is not None:
-            return False
-        calls[0] += 1
-        try:
-            return same(c)
-        except Exception:
-            return False
-
+    bucket = first[0]
+    limit = 18 if budget <= 150 else 60
+    t_end = time.time() + (90 if budget <= 150 else 300)
+    used = 0
     best = case
     improved = True
-    while improved and calls[0] < limit:
+    while improved and used < limit and time.time() < t_end:
         improved = False
-        cands = []
-        items = best["main"]["items"]
-        for i in reversed(range(len(items))):
-            c = copy.deepcopy(best)
-            del c["main"]["items"][i]
-            cands.append(c)
-            if items[i]["t"] == "require" and len(items[i]["entries"]) > 1:
-                for j in range(len(items[i]["entries"])):
-                    c = copy.deepcopy(best)
-                    del c["main"]["items"][i]["entries"][j]
-                    cands.append(c)
-        if best.get("ext_probes"):
-            c = copy.deepcopy(best)
-            c["ext_probes"] = []
-            cands.append(c)
-        for mi, m in enumerate(best["mods"]):
-            for field in ("reqs", "readers"):
-                if m[field]:
-                    c = copy.deepcopy(best)
-                    c["mods"][mi][field] = []
-                    cands.append(c)
-            if m.get("export"):
-                c = copy.deepcopy(best)
-                c["mods"][mi]["export"] = None
-                cands.append(c)
-            for k in range(len(m["macros"])):
-                c = copy.deepcopy(best)
-                del c["mods"][mi]["macros"][k]
-                cands.append(c)
-        for mi in reversed(range(len(best["mods"]))):
-            c = without_mod(best, mi)
-            if c is not None:
-                cands.append(c)
-        if best["drop"] != "all":
-            c = copy.deepcopy(best)
-            c["drop"] = "all"
-            cands.append(c)
-        if best.get("init_py"):
-            c = copy.deepcopy(best)
-            c["init_py"] = False
-            cands.append(c)
-        for c in cands:
-            if ok(c):
-                best = c
-                improved = True
+        cands = candidates(best)
+        for i in range(0, len(cands), 6):
+            chunk = cands[i:i + 6][: limit - used]
+            if not chunk or time.time() > t_end:
+                break
+            used += len(chunk)
+            for c, (rendered, res) in zip(chunk, run_batch(chunk)):
+                try:
+                    f = judge(c, rendered, res)[0]
+                except RuntimeError:
+                    f = None
+                if f is not None and f[0] == bucket:
+                    best = c
+                    improved = True
+                    break
+            if improved:
                 break
     return best
 
